@@ -37,7 +37,7 @@ from .tlc import run_tlc, require_ok
 
 # physical (capacity kWh, voltage V, full period min) triples a lattice point is mapped to
 PHYS = [(60.0, 240.0, 5.0), (13.7, 208.0, 1.0), (100.0, 277.0, 15.0), (8.0, 120.0, 60.0), (24.0, 400.0, 2.0),
-        (75.5, 208.0, 5.0)]
+        (75.5, 208.0, 5.0), (40.0, 208.0, 7.0), (16.0, 240.0, 45.0)]     # ... incl. periods that do not divide an hour
 BIG_RATE = 1.0e9
 
 
@@ -352,7 +352,15 @@ def _replay_one(args):
     ndec = 0
     found = None
     for phys in ph:
-        d, nd = run_sequence(b, phys, laws=laws)
+        try:
+            d, nd = run_sequence(b, phys, laws=laws)
+        except Exception as e:  # noqa
+            from .common import through_impl
+            if not through_impl(e):
+                raise       # a harness bug: machinery failure
+            # the implementation failed on a call the specification answers: a mismatch, not a machinery failure
+            d, nd = _mis("exception.%s" % type(e).__name__, -1, {"op": "?"}, "a charging rate", "%s: %s" % (type(e).__name__, e),
+                         phys), 0
         ndec += nd
         if d is not None:
             found = (d, [list(phys)])
